@@ -871,6 +871,30 @@ func canonLongStops(c *Ctx) {
 }
 
 func sequtilRound4_13(c *Ctx) {
+	// every 4-byte string over bases and foreign bytes, alone and after a valid group: DNATo2Bit panics
+	// exactly when a foreign byte is present (whatever the NUMBER of foreign bytes in a group)
+	al := []byte{'A', 'c', 'G', 't', 'N', 'n', 0xff, 0x00}
+	for a := 0; a < len(al)*len(al)*len(al)*len(al); a++ {
+		g := []byte{al[a%8], al[a/8%8], al[a/64%8], al[a/512%8]}
+		for _, s := range [][]byte{g, append([]byte("ACGT"), g...), append(append([]byte("AC"), g...), 'T')} {
+			foreign := false
+			for _, b := range s {
+				if strings.IndexByte("ACGTacgt", b) < 0 {
+					foreign = true
+				}
+			}
+			got := safe(func() string { return hx(sequtil.DNATo2Bit(nil, s)) })
+			oracle := ""
+			if foreign != (got == "PANIC") {
+				oracle = fmt.Sprintf("DNATo2Bit(%q): foreign byte present=%v, panics=%v", s, foreign, got == "PANIC")
+			}
+			cs := Case{Kind: "to2bit-foreign-combinations", Nontrivial: true, Oracle: oracle, Note: fmt.Sprintf("DNATo2Bit(nil, %q)", s)}
+			if a%7 == 0 || oracle != "" {
+				cs.Op, cs.Impl = "su.to2bit - "+hx(s), strings.Replace(got, "PANIC", "P", 1)
+			}
+			c.add(cs)
+		}
+	}
 	// long packed inputs over a biased byte alphabet (runs of 0x00 / 0xff at every alignment)
 	for i := 0; i < c.n(60); i++ {
 		n := []int{31, 32, 33, 64, 100, 257}[c.rng.Intn(6)]
